@@ -6,7 +6,7 @@ ids=${@:-C01 C02 C03 C04 C05 C06 C07 C08 C09 C10 C11 C12 C13 C14 C15 C16 C17 C18
 mkdir -p /verif/work/logs
 for id in $ids; do
   t0=$(date +%s)
-  /verif/check $id --tier $tier > /verif/work/logs/$id.$tier.log 2>&1
+  timeout ${VF_TIMEOUT:-7200} /verif/check $id --tier $tier > /verif/work/logs/$id.$tier.log 2>&1
   rc=$?
   t1=$(date +%s)
   echo "$id $tier exit=$rc wall=$((t1-t0))s $(grep -c '^VIOLATION' /verif/work/logs/$id.$tier.log) violations $(grep -c '^KNOWN-FINDING' /verif/work/logs/$id.$tier.log) known"
